@@ -180,7 +180,9 @@ def newdir(tag: str) -> Path:
 
 
 def ensure_built():
-    if not (CLASSES / "tlc2/module/BigRat.class").exists():
+    cls = CLASSES / "tlc2/module/BigRat.class"
+    src = VERIF / "java/tlc2/module/BigRat.java"
+    if not cls.exists() or cls.stat().st_mtime < src.stat().st_mtime:
         subprocess.run([str(VERIF / "harness/build.sh")], check=True)
 
 
